@@ -5,6 +5,15 @@
 //! and, for the signature clause, feeds committed signed fixtures and byte-level alterations of
 //! them into the real S/MIME verification and `validate_local_permissions`.
 //!
+//! Strengthening round: kind "forge" - a signed container assembled from genuine material by
+//! COOPERATING edits (content exchanged / edited, signed attributes rewritten, signature value
+//! exchanged / damaged, every field outside the signature replaced: MIME parameters, versions,
+//! algorithm identifiers, signer identifier, embedded certificate, unsigned attributes).  The abstract
+//! containers come from TLC (slice "forge" of spec/AccessControl.tla, <= MaxEdits edits) or from the
+//! seeded generator (more edits, random content edits, byte noise / byte sweeps over the DER blob of
+//! an already edited container); each is built on the real fixture bytes (own DER reader / writer,
+//! base64, SHA-256) and given to the real S/MIME verification and validate_local_permissions.
+//!
 //! modes:  replay --in specs.jsonl | random --seed --runs --events [--tier --fixtures DIR]
 //!         render --in fixtures.json --out DIR   (writes the XML that was signed once; not used by checks)
 use std::collections::HashMap;
@@ -39,6 +48,15 @@ pub struct ARunSpec {
   pub target: String, // "perm" | "gov": which blob is altered
   #[serde(default)]
   pub alts: Value, // {mode:"bytes", from, to, xors:[..], del:bool, ins:bool} | {mode:"special"}
+  // ---- forge (perm / gov / target as for sig; empty perm = expanded over the tier's targets)
+  #[serde(default)]
+  pub blob: Value, // abstract container, AccessDecision!fblob
+  #[serde(default)]
+  pub ca: String, // configured CA: "CA" | "foreign"
+  #[serde(default)]
+  pub other: String, // fixture playing document "O" (same kind as the target)
+  #[serde(default)]
+  pub fmode: Value, // null: every concrete variant | {mode:"der_sweep",from,to,xors} | {mode:"rand",n,seed}
 }
 
 pub const S1: &str = "CN=participant1_common_name,O=Example Organization";
@@ -422,9 +440,811 @@ fn run_sig(k: usize, sp: &ARunSpec, ev: &mut Vec<Value>) {
   }
 }
 
+// ------------------------------------------------------------------ forged containers (strengthening round)
+fn blank_spec(kind: &str) -> ARunSpec {
+  ARunSpec {
+    kind: kind.into(),
+    doc: Value::Null,
+    subj: String::new(),
+    q: Value::Null,
+    style: 0,
+    fixdir: String::new(),
+    perm: String::new(),
+    gov: String::new(),
+    target: String::new(),
+    alts: Value::Null,
+    blob: Value::Null,
+    ca: String::new(),
+    other: String::new(),
+    fmode: Value::Null,
+  }
+}
+
+/// SHA-256, own implementation (the oracle side must not share code with the crate under test);
+/// cross-checked at every run against the messageDigest attribute of the genuine fixture.
+fn sha256(data: &[u8]) -> [u8; 32] {
+  const K: [u32; 64] = [
+    0x428a2f98, 0x71374491, 0xb5c0fbcf, 0xe9b5dba5, 0x3956c25b, 0x59f111f1, 0x923f82a4, 0xab1c5ed5, 0xd807aa98, 0x12835b01, 0x243185be, 0x550c7dc3, 0x72be5d74,
+    0x80deb1fe, 0x9bdc06a7, 0xc19bf174, 0xe49b69c1, 0xefbe4786, 0x0fc19dc6, 0x240ca1cc, 0x2de92c6f, 0x4a7484aa, 0x5cb0a9dc, 0x76f988da, 0x983e5152, 0xa831c66d,
+    0xb00327c8, 0xbf597fc7, 0xc6e00bf3, 0xd5a79147, 0x06ca6351, 0x14292967, 0x27b70a85, 0x2e1b2138, 0x4d2c6dfc, 0x53380d13, 0x650a7354, 0x766a0abb, 0x81c2c92e,
+    0x92722c85, 0xa2bfe8a1, 0xa81a664b, 0xc24b8b70, 0xc76c51a3, 0xd192e819, 0xd6990624, 0xf40e3585, 0x106aa070, 0x19a4c116, 0x1e376c08, 0x2748774c, 0x34b0bcb5,
+    0x391c0cb3, 0x4ed8aa4a, 0x5b9cca4f, 0x682e6ff3, 0x748f82ee, 0x78a5636f, 0x84c87814, 0x8cc70208, 0x90befffa, 0xa4506ceb, 0xbef9a3f7, 0xc67178f2,
+  ];
+  let mut h: [u32; 8] = [0x6a09e667, 0xbb67ae85, 0x3c6ef372, 0xa54ff53a, 0x510e527f, 0x9b05688c, 0x1f83d9ab, 0x5be0cd19];
+  let mut m = data.to_vec();
+  m.push(0x80);
+  while m.len() % 64 != 56 {
+    m.push(0);
+  }
+  m.extend_from_slice(&((data.len() as u64) * 8).to_be_bytes());
+  for block in m.chunks(64) {
+    let mut w = [0u32; 64];
+    for i in 0..16 {
+      w[i] = u32::from_be_bytes([block[4 * i], block[4 * i + 1], block[4 * i + 2], block[4 * i + 3]]);
+    }
+    for i in 16..64 {
+      let s0 = w[i - 15].rotate_right(7) ^ w[i - 15].rotate_right(18) ^ (w[i - 15] >> 3);
+      let s1 = w[i - 2].rotate_right(17) ^ w[i - 2].rotate_right(19) ^ (w[i - 2] >> 10);
+      w[i] = w[i - 16].wrapping_add(s0).wrapping_add(w[i - 7]).wrapping_add(s1);
+    }
+    let mut v = h;
+    for i in 0..64 {
+      let s1 = v[4].rotate_right(6) ^ v[4].rotate_right(11) ^ v[4].rotate_right(25);
+      let chv = (v[4] & v[5]) ^ (!v[4] & v[6]);
+      let t1 = v[7].wrapping_add(s1).wrapping_add(chv).wrapping_add(K[i]).wrapping_add(w[i]);
+      let s0 = v[0].rotate_right(2) ^ v[0].rotate_right(13) ^ v[0].rotate_right(22);
+      let maj = (v[0] & v[1]) ^ (v[0] & v[2]) ^ (v[1] & v[2]);
+      let t2 = s0.wrapping_add(maj);
+      v = [t1.wrapping_add(t2), v[0], v[1], v[2], v[3].wrapping_add(t1), v[4], v[5], v[6]];
+    }
+    for i in 0..8 {
+      h[i] = h[i].wrapping_add(v[i]);
+    }
+  }
+  let mut out = [0u8; 32];
+  for i in 0..8 {
+    out[4 * i..4 * i + 4].copy_from_slice(&h[i].to_be_bytes());
+  }
+  out
+}
+
+const B64: &[u8; 64] = b"ABCDEFGHIJKLMNOPQRSTUVWXYZabcdefghijklmnopqrstuvwxyz0123456789+/";
+fn b64_decode(text: &str) -> Vec<u8> {
+  let mut out = vec![];
+  let (mut acc, mut bits) = (0u32, 0u32);
+  for c in text.bytes() {
+    let v = match B64.iter().position(|&x| x == c) {
+      Some(v) => v as u32,
+      None => continue, // white space, padding
+    };
+    acc = (acc << 6) | v;
+    bits += 6;
+    if bits >= 8 {
+      bits -= 8;
+      out.push((acc >> bits) as u8);
+      acc &= (1 << bits) - 1;
+    }
+  }
+  out
+}
+/// 64 characters per line, every line ends with '\n' (the layout openssl writes)
+fn b64_encode_lines(data: &[u8]) -> String {
+  let mut flat = String::new();
+  for chunk in data.chunks(3) {
+    let b = [chunk[0], *chunk.get(1).unwrap_or(&0), *chunk.get(2).unwrap_or(&0)];
+    let n = (u32::from(b[0]) << 16) | (u32::from(b[1]) << 8) | u32::from(b[2]);
+    for k in 0..4 {
+      if k <= chunk.len() {
+        flat.push(B64[((n >> (18 - 6 * k)) & 63) as usize] as char);
+      } else {
+        flat.push('=');
+      }
+    }
+  }
+  let mut out = String::new();
+  for line in flat.as_bytes().chunks(64) {
+    out.push_str(std::str::from_utf8(line).unwrap());
+    out.push('\n');
+  }
+  out
+}
+
+/// DER tree: primitive (tag, content octets) | constructed (tag, children); definite lengths only
+#[derive(Clone, Debug, PartialEq)]
+enum Der {
+  Prim(u8, Vec<u8>),
+  Cons(u8, Vec<Der>),
+}
+fn der_parse(b: &[u8], pos: &mut usize) -> Der {
+  let tag = b[*pos];
+  assert!(tag & 0x1f != 0x1f, "fixture shape: high tag number");
+  let l0 = b[*pos + 1];
+  *pos += 2;
+  let len = if l0 < 0x80 {
+    l0 as usize
+  } else {
+    let n = (l0 & 0x7f) as usize;
+    let mut v = 0usize;
+    for _ in 0..n {
+      v = (v << 8) | b[*pos] as usize;
+      *pos += 1;
+    }
+    v
+  };
+  let end = *pos + len;
+  if tag & 0x20 != 0 {
+    let mut c = vec![];
+    while *pos < end {
+      c.push(der_parse(b, pos));
+    }
+    assert!(*pos == end, "fixture shape: child overruns parent");
+    Der::Cons(tag, c)
+  } else {
+    let v = b[*pos..end].to_vec();
+    *pos = end;
+    Der::Prim(tag, v)
+  }
+}
+fn der_encode(d: &Der, out: &mut Vec<u8>) {
+  let (tag, body) = match d {
+    Der::Prim(t, v) => (*t, v.clone()),
+    Der::Cons(t, c) => {
+      let mut b = vec![];
+      for x in c {
+        der_encode(x, &mut b);
+      }
+      (*t, b)
+    }
+  };
+  out.push(tag);
+  if body.len() < 0x80 {
+    out.push(body.len() as u8);
+  } else {
+    let bytes: Vec<u8> = body.len().to_be_bytes().iter().copied().skip_while(|&x| x == 0).collect();
+    out.push(0x80 | bytes.len() as u8);
+    out.extend_from_slice(&bytes);
+  }
+  out.extend_from_slice(&body);
+}
+fn ch(d: &mut Der) -> &mut Vec<Der> {
+  match d {
+    Der::Cons(_, c) => c,
+    Der::Prim(t, _) => panic!("fixture shape: constructed value expected, found tag {t:#x}"),
+  }
+}
+fn prim(d: &mut Der) -> &mut Vec<u8> {
+  match d {
+    Der::Prim(_, v) => v,
+    Der::Cons(t, _) => panic!("fixture shape: primitive value expected, found tag {t:#x}"),
+  }
+}
+fn tag(d: &Der) -> u8 {
+  match d {
+    Der::Prim(t, _) | Der::Cons(t, _) => *t,
+  }
+}
+/// children of SignedData: version, digestAlgorithms, encapContentInfo, [0] certificates?, [1] crls?, signerInfos
+fn sd(root: &mut Der) -> &mut Vec<Der> {
+  ch(&mut ch(&mut ch(root)[1])[0])
+}
+/// children of the first SignerInfo: version, sid, digestAlgorithm, [0] signedAttrs, signatureAlgorithm, signature, [1] unsignedAttrs?
+fn si(root: &mut Der) -> &mut Vec<Der> {
+  let sdc = sd(root);
+  let last = sdc.len() - 1;
+  assert!(tag(&sdc[last]) == 0x31, "fixture shape: signerInfos");
+  let sic = ch(&mut ch(&mut sdc[last])[0]);
+  assert!(sic.len() >= 6 && tag(&sic[3]) == 0xa0 && tag(&sic[5]) == 0x04, "fixture shape: SignerInfo");
+  sic
+}
+fn first_prim_with_tag(d: &mut Der, t: u8) -> Option<&mut Vec<u8>> {
+  match d {
+    Der::Prim(tt, v) => (*tt == t).then_some(v),
+    Der::Cons(_, c) => c.iter_mut().find_map(|x| first_prim_with_tag(x, t)),
+  }
+}
+const OID_ATTR_MD: [u8; 9] = [0x2a, 0x86, 0x48, 0x86, 0xf7, 0x0d, 0x01, 0x09, 0x04];
+const OID_ATTR_TIME: [u8; 9] = [0x2a, 0x86, 0x48, 0x86, 0xf7, 0x0d, 0x01, 0x09, 0x05];
+/// the (single) value of the signed attribute with this type
+fn signed_attr<'a>(root: &'a mut Der, oid: &[u8]) -> &'a mut Vec<u8> {
+  for a in ch(&mut si(root)[3]).iter_mut() {
+    let is = matches!(&ch(a)[0], Der::Prim(0x06, v) if v.as_slice() == oid);
+    if is {
+      return prim(&mut ch(&mut ch(a)[1])[0]);
+    }
+  }
+  panic!("fixture shape: signed attribute missing");
+}
+
+// registered object identifiers (content octets)
+const DIGEST_OIDS: [&[u8]; 5] = [
+  &[0x60, 0x86, 0x48, 0x01, 0x65, 0x03, 0x04, 0x02, 0x02], // sha384
+  &[0x60, 0x86, 0x48, 0x01, 0x65, 0x03, 0x04, 0x02, 0x03], // sha512
+  &[0x2b, 0x0e, 0x03, 0x02, 0x1a],                         // sha1
+  &[0x60, 0x86, 0x48, 0x01, 0x65, 0x03, 0x04, 0x02, 0x04], // sha224
+  &[0x2a, 0x86, 0x48, 0x86, 0xf7, 0x0d, 0x02, 0x05],       // md5
+];
+const SIGALG_OIDS: [&[u8]; 6] = [
+  &[0x2a, 0x86, 0x48, 0xce, 0x3d, 0x04, 0x03, 0x03],             // ecdsa-with-SHA384
+  &[0x2a, 0x86, 0x48, 0xce, 0x3d, 0x04, 0x03, 0x04],             // ecdsa-with-SHA512
+  &[0x2a, 0x86, 0x48, 0xce, 0x3d, 0x04, 0x01],                   // ecdsa-with-SHA1
+  &[0x2a, 0x86, 0x48, 0x86, 0xf7, 0x0d, 0x01, 0x01, 0x01],       // rsaEncryption
+  &[0x2a, 0x86, 0x48, 0x86, 0xf7, 0x0d, 0x01, 0x01, 0x0b],       // sha256WithRSAEncryption
+  &[0x2b, 0x65, 0x70],                                           // Ed25519
+];
+const CONTENT_OIDS: [&[u8]; 3] = [
+  &[0x2a, 0x86, 0x48, 0x86, 0xf7, 0x0d, 0x01, 0x07, 0x01], // data
+  &[0x2a, 0x86, 0x48, 0x86, 0xf7, 0x0d, 0x01, 0x07, 0x02], // signedData
+  &[0x2a, 0x86, 0x48, 0x86, 0xf7, 0x0d, 0x01, 0x07, 0x03], // envelopedData
+];
+const UFIELDS: [&str; 12] = [
+  "root_type", "sd_version", "sd_dalgs", "encap_type", "certs", "si_version", "si_sid", "si_dalg", "si_salg", "si_uattrs", "mime_micalg", "mime_protocol",
+];
+fn ualts(f: &str) -> &'static [&'static str] {
+  match f {
+    "root_type" | "encap_type" | "si_dalg" | "si_salg" => &["known", "unknown"],
+    "sd_dalgs" => &["known", "unknown", "empty"],
+    "certs" => &["flipped", "removed", "foreign"],
+    "si_sid" => &["serial", "foreign"],
+    _ => &["alt"],
+  }
+}
+const MIME_BASE: usize = 100_000;
+const N_E_VARIANTS: usize = 2; // in exhaustive-variant mode: defaults flipped, one character swapped
+
+fn hexs(b: &[u8]) -> String {
+  b.iter().map(|x| format!("{x:02x}")).collect()
+}
+
+/// a registered identifier other than the present one / an unregistered one
+fn oid_variant(orig: &[u8], class: &str, known: &[&[u8]], i: usize) -> Vec<u8> {
+  if class == "known" {
+    let others: Vec<&&[u8]> = known.iter().filter(|k| **k != orig).collect();
+    others[i % others.len()].to_vec()
+  } else {
+    let mut v = orig.to_vec();
+    let n = v.len() - 1;
+    v[n] ^= [0x40u8, 0x01, 0x08, 0x20][i % 4];
+    if known.iter().any(|k| *k == v.as_slice()) || v[n] & 0x80 != 0 {
+      v[n] ^= 0x10;
+    }
+    v
+  }
+}
+fn n_oid_variants(class: &str, known: &[&[u8]]) -> usize {
+  if class == "known" {
+    known.len() - 1
+  } else {
+    4
+  }
+}
+
+struct Frame {
+  pre: String,  // MIME header, preamble, first boundary line
+  mid: String,  // "\n" boundary line, headers of the signature part, blank line
+  post: String, // blank line, closing boundary
+  der: Vec<u8>,
+}
+fn split_frame(blob: &[u8]) -> Frame {
+  let text = String::from_utf8(blob.to_vec()).expect("fixture is ASCII");
+  let a = text.find("boundary=\"").expect("boundary") + 10;
+  let delim = format!("--{}\n", &text[a..a + text[a..].find('"').unwrap()]);
+  let pre_end = text.find(&delim).expect("first boundary") + delim.len();
+  let second = pre_end + text[pre_end..].find(&format!("\n{delim}")).expect("second boundary");
+  let mid_end = second + text[second..].find("\n\n").expect("signature part headers") + 2;
+  let body_end = mid_end + text[mid_end..].find("\n\n").expect("signature part body") + 1;
+  Frame {
+    pre: text[..pre_end].to_string(),
+    mid: text[second..mid_end].to_string(),
+    post: text[body_end..].to_string(),
+    der: b64_decode(&text[mid_end..body_end]),
+  }
+}
+
+fn fixture(dir: &str, name: &str) -> std::sync::Arc<Vec<u8>> {
+  use std::sync::{Arc, Mutex, OnceLock};
+  static CACHE: OnceLock<Mutex<HashMap<String, Arc<Vec<u8>>>>> = OnceLock::new();
+  let key = format!("{dir}/{name}");
+  let mut c = CACHE.get_or_init(|| Mutex::new(HashMap::new())).lock().unwrap();
+  c.entry(key.clone()).or_insert_with(|| Arc::new(std::fs::read(&key).unwrap_or_else(|e| panic!("fixture {key}: {e}")))).clone()
+}
+
+/// the genuine material for target document `t` and the other document `o` (same kind)
+struct Materials {
+  perm_kind: bool,
+  frame: Frame,                          // t.p7s (signed by the Permissions CA)
+  ders: HashMap<(String, String), Der>,  // ("T"|"O", signer) -> SignedData blob of that signature part
+  xml_t: Vec<u8>,
+  xml_o: Vec<u8>,
+  doc_t: Value,
+  doc_o: Value,
+}
+fn suffix(by: &str) -> &'static str {
+  match by {
+    "CA" => "",
+    "foreign" => ".foreign",
+    _ => ".identity",
+  }
+}
+fn materials(dir: &str, t: &str, o: &str) -> Materials {
+  let meta: Value = serde_json::from_slice(&fixture(dir, "fixtures.json")).expect("fixtures.json");
+  let perm_kind = meta[t].get("grants").is_some();
+  assert!(perm_kind == meta[o].get("grants").is_some() && t != o, "forge: documents T and O must be two of the same kind");
+  let genuine = fixture(dir, &format!("{t}.p7s"));
+  let frame = split_frame(&genuine);
+  let mut ders = HashMap::new();
+  for (d, name) in [("T", t), ("O", o)] {
+    for by in ["CA", "foreign", "identity"] {
+      let f = split_frame(&fixture(dir, &format!("{name}{}.p7s", suffix(by))));
+      let mut p = 0;
+      let tree = der_parse(&f.der, &mut p);
+      assert!(p == f.der.len(), "fixture shape: trailing bytes after SignedData");
+      ders.insert((d.to_string(), by.to_string()), tree);
+    }
+  }
+  let m = Materials {
+    perm_kind,
+    frame,
+    ders,
+    xml_t: fixture(dir, &format!("{t}.xml")).to_vec(),
+    xml_o: fixture(dir, &format!("{o}.xml")).to_vec(),
+    doc_t: meta[t].clone(),
+    doc_o: meta[o].clone(),
+  };
+  // tool sanity (a failure here is a tool error, never a verdict): the container is rebuilt byte for byte, the
+  // own SHA-256 over the own canonical form is the digest openssl signed, the XML is the rendering of the abstract document
+  let mut tree = m.ders[&("T".to_string(), "CA".to_string())].clone();
+  assert!(m.build(&tree, &canonical(&m.xml_t), &m.frame.pre) == *genuine, "forge: genuine container not reproduced");
+  assert!(signed_attr(&mut tree, &OID_ATTR_MD).as_slice() == sha256(&canonical(&m.xml_t)), "forge: digest of the canonical content");
+  let rendered = if perm_kind { render_permissions(&m.doc_t, 0) } else { render_governance(&m.doc_t, 0) };
+  assert!(rendered.as_bytes() == m.xml_t.as_slice(), "forge: fixture XML is not the rendering of fixtures.json");
+  m
+}
+impl Materials {
+  fn build(&self, tree: &Der, content: &[u8], pre: &str) -> Vec<u8> {
+    let mut der = vec![];
+    der_encode(tree, &mut der);
+    self.assemble(&der, content, pre)
+  }
+  fn assemble(&self, der: &[u8], content: &[u8], pre: &str) -> Vec<u8> {
+    self.assemble_noisy(der, content, pre, &[])
+  }
+  /// noise positions >= MIME_BASE address the MIME text around the two bodies (header + preamble + first boundary,
+  /// second boundary + headers of the signature part, closing boundary), counted from MIME_BASE
+  fn assemble_noisy(&self, der: &[u8], content: &[u8], pre: &str, noise: &[(usize, u8)]) -> Vec<u8> {
+    let mut parts = [pre.as_bytes().to_vec(), self.frame.mid.as_bytes().to_vec(), self.frame.post.as_bytes().to_vec()];
+    for (pos, x) in noise {
+      if *pos >= MIME_BASE {
+        let mut i = *pos - MIME_BASE;
+        for p in parts.iter_mut() {
+          if i < p.len() {
+            p[i] ^= x;
+            break;
+          }
+          i -= p.len();
+        }
+      }
+    }
+    let mut out = parts[0].clone();
+    out.extend_from_slice(content);
+    out.extend_from_slice(&parts[1]);
+    out.extend_from_slice(b64_encode_lines(der).as_bytes());
+    out.extend_from_slice(&parts[2]);
+    out
+  }
+  fn mime_len(&self) -> usize {
+    self.frame.pre.len() + self.frame.mid.len() + self.frame.post.len()
+  }
+  /// content nobody signed. variant 0: the target document with every default (permissions) / every access
+  /// control switch (governance) inverted - still a loadable document; others: one letter of the XML changes case
+  fn edited_xml(&self, variant: usize) -> (Vec<u8>, String) {
+    if variant == 0 {
+      let mut d = self.doc_t.clone();
+      if self.perm_kind {
+        for g in d["grants"].as_array_mut().unwrap() {
+          g["def"] = json!(if s(&g["def"]) == "ALLOW" { "DENY" } else { "ALLOW" });
+        }
+        (render_permissions(&d, 0).into_bytes(), "defaults_inverted".into())
+      } else {
+        for r in d["gov"].as_array_mut().unwrap() {
+          r["read"] = json!(!r["read"].as_bool().unwrap_or(true));
+          r["write"] = json!(!r["write"].as_bool().unwrap_or(true));
+        }
+        (render_governance(&d, 0).into_bytes(), "switches_inverted".into())
+      }
+    } else {
+      let mut x = self.xml_t.clone();
+      let mut p = (variant.wrapping_mul(2654435761)) % x.len();
+      while !x[p].is_ascii_alphabetic() {
+        p = (p + 1) % x.len();
+      }
+      x[p] ^= 0x20;
+      (x, format!("case_of_letter_at_{p}"))
+    }
+  }
+  fn xml_of(&self, d: &str) -> &[u8] {
+    if d == "O" {
+      &self.xml_o
+    } else {
+      &self.xml_t
+    }
+  }
+  fn doc_of(&self, d: &str) -> &Value {
+    if d == "O" {
+      &self.doc_o
+    } else {
+      &self.doc_t
+    }
+  }
+
+  /// Builds the real bytes of the abstract container `b`. `pick(field, n)` chooses one of the n concrete values of a class.
+  /// Returns (container, description of the concrete choices, DER length).
+  fn realise(&self, b: &Value, pick: &mut dyn FnMut(&str, usize) -> usize, noise: &[(usize, u8)]) -> (Vec<u8>, Value, usize) {
+    let (by, of) = (s(&b["by"]).to_string(), s(&b["of"]).to_string());
+    let mut desc = serde_json::Map::new();
+    let mut tree = self.ders[&(of.clone(), by.clone())].clone();
+    // transported content (+ digest of the edited content, should the messageDigest attribute be rewritten to it)
+    let ev = pick("content_E", N_E_VARIANTS);
+    let (exml, edesc) = self.edited_xml(ev);
+    let content = match s(&b["content"]) {
+      "E" => {
+        desc.insert("content".into(), json!(edesc));
+        canonical(&exml)
+      }
+      d => canonical(self.xml_of(d)),
+    };
+    // signed attributes (the signature value is NOT recomputed: no key)
+    let md = s(&b["md"]);
+    if md != of {
+      let v = match md {
+        "E" => sha256(&canonical(&exml)).to_vec(),
+        "junk" => {
+          let mut v = signed_attr(&mut tree, &OID_ATTR_MD).clone();
+          let i = pick("md", 3);
+          let n = v.len();
+          v[[0, n / 2, n - 1][i]] ^= 0x01;
+          v
+        }
+        d => sha256(&canonical(self.xml_of(d))).to_vec(),
+      };
+      desc.insert("md".into(), json!(hexs(&v)));
+      *signed_attr(&mut tree, &OID_ATTR_MD) = v;
+    }
+    if s(&b["rest"]) != "orig" {
+      let t = signed_attr(&mut tree, &OID_ATTR_TIME);
+      let i = t.len() - 2 - pick("rest", 3); // a digit of the seconds / minutes of signingTime
+      t[i] = if t[i] == b'0' { b'1' } else { b'0' };
+      desc.insert("rest".into(), json!(format!("signingTime={}", String::from_utf8_lossy(t))));
+    }
+    let sig = s(&b["sig"]);
+    if sig != of {
+      if sig == "junk" {
+        let v = prim(&mut si(&mut tree)[5]);
+        let n = v.len();
+        let i = [n / 4, n / 2, n - 1, 6][pick("sig", 4)];
+        v[i] ^= 0x01;
+        desc.insert("sig".into(), json!(format!("bit flipped in octet {i}")));
+      } else {
+        let mut other = self.ders[&(sig.to_string(), by.clone())].clone();
+        let v = prim(&mut si(&mut other)[5]).clone();
+        *prim(&mut si(&mut tree)[5]) = v;
+        desc.insert("sig".into(), json!(format!("value from the signature part for {sig}")));
+      }
+    }
+    // fields outside the signature
+    let mut pre = self.frame.pre.clone();
+    for f in UFIELDS {
+      let class = s(&b["un"][f]);
+      if class == "orig" || class.is_empty() {
+        continue;
+      }
+      let d: String = match f {
+        "root_type" | "encap_type" | "sd_dalgs" | "si_dalg" | "si_salg" => {
+          if class == "empty" {
+            ch(&mut sd(&mut tree)[1]).clear();
+            "no element".into()
+          } else {
+            let known: &[&[u8]] = match f {
+              "root_type" | "encap_type" => &CONTENT_OIDS,
+              "si_salg" => &SIGALG_OIDS,
+              _ => &DIGEST_OIDS,
+            };
+            let i = pick(f, n_oid_variants(class, known));
+            let slot = match f {
+              "root_type" => prim(&mut ch(&mut tree)[0]),
+              "encap_type" => prim(&mut ch(&mut sd(&mut tree)[2])[0]),
+              "sd_dalgs" => prim(&mut ch(&mut ch(&mut sd(&mut tree)[1])[0])[0]),
+              "si_dalg" => prim(&mut ch(&mut si(&mut tree)[2])[0]),
+              _ => prim(&mut ch(&mut si(&mut tree)[4])[0]),
+            };
+            *slot = oid_variant(slot, class, known, i);
+            format!("oid {}", hexs(slot))
+          }
+        }
+        "sd_version" | "si_version" => {
+          let v = [3u8, 0, 4, 2][pick(f, 4)];
+          let slot = if f == "sd_version" { prim(&mut sd(&mut tree)[0]) } else { prim(&mut si(&mut tree)[0]) };
+          *slot = vec![v];
+          format!("{v}")
+        }
+        "certs" => {
+          let sdc = sd(&mut tree);
+          let idx = sdc.iter().position(|x| tag(x) == 0xa0).expect("fixture shape: certificates");
+          match class {
+            "removed" => {
+              sdc.remove(idx);
+              "removed".into()
+            }
+            "foreign" => {
+              let other_signer = if by == "foreign" { "CA" } else { "foreign" };
+              let mut o = self.ders[&(of.clone(), other_signer.to_string())].clone();
+              let osd = sd(&mut o);
+              let oi = osd.iter().position(|x| tag(x) == 0xa0).expect("fixture shape: certificates");
+              sdc[idx] = osd[oi].clone();
+              format!("certificate of {other_signer}")
+            }
+            _ => {
+              let key = first_prim_with_tag(&mut sdc[idx], 0x03).expect("fixture shape: public key");
+              let n = key.len();
+              let i = [n / 2, n - 1, 2][pick(f, 3)];
+              key[i] ^= 0x01;
+              format!("bit flipped in octet {i} of the embedded public key")
+            }
+          }
+        }
+        "si_sid" => {
+          if class == "foreign" {
+            let other_signer = if by == "foreign" { "CA" } else { "foreign" };
+            let mut o = self.ders[&(of.clone(), other_signer.to_string())].clone();
+            let sid = si(&mut o)[1].clone();
+            si(&mut tree)[1] = sid;
+            format!("signer identifier of {other_signer}")
+          } else {
+            let sidc = ch(&mut si(&mut tree)[1]);
+            let last = sidc.len() - 1;
+            let serial = prim(&mut sidc[last]);
+            let n = serial.len();
+            let i = [n - 1, n / 2][pick(f, 2)];
+            serial[i] ^= 0x01;
+            format!("bit flipped in octet {i} of the serial number")
+          }
+        }
+        "si_uattrs" => {
+          // unsigned attributes: an unknown one | a messageDigest attribute that fits the transported content |
+          // a complete copy of the signed attributes with the messageDigest rewritten to the transported content
+          let fitting = Der::Cons(0x30, vec![Der::Prim(0x06, OID_ATTR_MD.to_vec()), Der::Cons(0x31, vec![Der::Prim(0x04, sha256(&content).to_vec())])]);
+          let (attrs, d) = match pick(f, 3) {
+            0 => (vec![Der::Cons(0x30, vec![Der::Prim(0x06, vec![0x2a, 0x03, 0x04]), Der::Cons(0x31, vec![Der::Prim(0x04, b"unsigned".to_vec())])])], "one unknown unsigned attribute"),
+            1 => (vec![fitting], "unsigned messageDigest attribute fitting the transported content"),
+            _ => {
+              let mut copy = ch(&mut si(&mut tree)[3]).clone();
+              for a in copy.iter_mut() {
+                if matches!(&ch(a)[0], Der::Prim(0x06, v) if v.as_slice() == OID_ATTR_MD) {
+                  *a = fitting.clone();
+                }
+              }
+              (copy, "unsigned copy of the signed attributes, messageDigest fitting the transported content")
+            }
+          };
+          si(&mut tree).push(Der::Cons(0xa1, attrs));
+          d.into()
+        }
+        "mime_micalg" => {
+          let v = ["sha-384", "sha1", "md5", "sha-512"][pick(f, 4)];
+          assert!(pre.contains("micalg=\"sha-256\""), "fixture shape: micalg");
+          pre = pre.replace("micalg=\"sha-256\"", &format!("micalg=\"{v}\""));
+          v.into()
+        }
+        _ => {
+          let v = ["application/pkcs7-signature", "application/pgp-signature"][pick(f, 2)];
+          assert!(pre.contains("protocol=\"application/x-pkcs7-signature\""), "fixture shape: protocol");
+          pre = pre.replace("protocol=\"application/x-pkcs7-signature\"", &format!("protocol=\"{v}\""));
+          v.into()
+        }
+      };
+      desc.insert(f.into(), json!(d));
+    }
+    let mut der = vec![];
+    der_encode(&tree, &mut der);
+    for (pos, x) in noise {
+      if *pos < der.len() {
+        der[*pos] ^= x;
+      }
+    }
+    let n = der.len();
+    (self.assemble_noisy(&der, &content, &pre, noise), Value::Object(desc), n)
+  }
+
+  /// number of concrete realisations worth running for `b` in exhaustive-variant mode
+  fn n_variants(&self, b: &Value) -> usize {
+    let mut n = 1;
+    if s(&b["content"]) == "E" || s(&b["md"]) == "E" {
+      n = n.max(N_E_VARIANTS);
+    }
+    if s(&b["md"]) == "junk" || s(&b["rest"]) != "orig" {
+      n = n.max(3);
+    }
+    if s(&b["sig"]) == "junk" {
+      n = n.max(4);
+    }
+    for f in UFIELDS {
+      let class = s(&b["un"][f]);
+      n = n.max(match (f, class) {
+        (_, "orig") | (_, "") => 1,
+        ("root_type" | "encap_type", c) => n_oid_variants(c, &CONTENT_OIDS),
+        ("sd_dalgs", "empty") => 1,
+        ("sd_dalgs" | "si_dalg", c) => n_oid_variants(c, &DIGEST_OIDS),
+        ("si_salg", c) => n_oid_variants(c, &SIGALG_OIDS),
+        ("sd_version" | "si_version" | "mime_micalg", _) => 4,
+        ("certs", "flipped") | ("si_uattrs", _) => 3,
+        ("si_sid", "serial") | ("mime_protocol", _) => 2,
+        _ => 1,
+      });
+    }
+    n
+  }
+}
+
+fn run_forge(k: usize, sp: &ARunSpec, ev: &mut Vec<Value>) {
+  let dir = sp.fixdir.as_str();
+  let gov_target = sp.target == "gov";
+  let tname = if gov_target { &sp.gov } else { &sp.perm };
+  let m = materials(dir, tname, &sp.other);
+  let meta: Value = serde_json::from_slice(&fixture(dir, "fixtures.json")).expect("fixtures.json");
+  let b = &sp.blob;
+  // the document whose statements hold if this container is accepted: the one its signature VALUE was made for
+  // (a damaged value vouches for nothing; any acceptance is then a violation whatever the document)
+  let of = if s(&b["sig"]) == "junk" { s(&b["of"]) } else { s(&b["sig"]) };
+  let doc = if gov_target {
+    json!({"grants": meta[&sp.perm]["grants"], "gov": m.doc_of(of)["gov"]})
+  } else {
+    json!({"grants": m.doc_of(of)["grants"], "gov": meta[&sp.gov]["gov"]})
+  };
+  ev.push(json!({"ev":"Reset","run":k,"kind":"forge","doc":doc,"subj":"S1","perm":sp.perm,"gov":sp.gov,"target":sp.target,"other":sp.other}));
+  let (ca_file, sfx) = if sp.ca == "foreign" { ("foreign_ca.cert.pem", ".foreign") } else { ("permissions_ca.cert.pem", "") };
+  let ca_pem = fixture(dir, ca_file);
+  // the document that is not under test is a genuine one of the configured CA
+  let companion = fixture(dir, &format!("{}{sfx}.p7s", if gov_target { &sp.perm } else { &sp.gov }));
+  let signed_content = canonical(m.xml_of(of));
+  let fx = Fix { dir: dir.to_string() };
+  let qmini = json!({"doms":[0],"topics":["A","B"],"parts":[["A"]]});
+  let one = |pick: &mut dyn FnMut(&str, usize) -> usize, noise: &[(usize, u8)], ev: &mut Vec<Value>| -> usize {
+    let (bytes, desc, der_len) = m.realise(b, pick, noise);
+    let noise_json: Vec<Value> = noise.iter().map(|(p, x)| json!({"pos":p,"x":x})).collect();
+    ev.push(json!({"ev":"Forge","blob":b,"ca":sp.ca,"doc":doc,"concrete":desc,"noise":noise_json}));
+    let r = AccessRig::verify_blob(&bytes, &ca_pem);
+    let (out, same) = match &r {
+      Ok(c) => ("accepted", c.as_slice() == signed_content.as_slice()),
+      Err(e) if e == "panic" => ("panic", false),
+      Err(_) => ("refused", false),
+    };
+    ev.push(json!({"ev":"FVerify","out":out,"same":same}));
+    // the public entrance; the two documents are handed over in memory (`data:` URIs; the containers built here are ASCII)
+    let (p, g) = if gov_target { (companion.to_vec(), bytes) } else { (bytes, companion.to_vec()) };
+    match (std::str::from_utf8(&p), std::str::from_utf8(&g)) {
+      (Ok(ps), Ok(gs)) => {
+        let mut rig = AccessRig::new();
+        let r = rig.validate_local_uris(
+          &format!("file:{}", fx.path(ca_file)),
+          &format!("data:{gs}"),
+          &format!("data:{ps}"),
+          &format!("file:{}", fx.path("identity_cert.pem")),
+          0,
+        );
+        match r {
+          Ok(h) => {
+            ev.push(json!({"ev":"Validate","alt":{"k":"forge"},"ok":true,"has_grant":rig.has_grant(h),"err":""}));
+            log_checks(&rig, Some(h), &qmini, ev);
+          }
+          Err(e) => ev.push(json!({"ev":"Validate","alt":{"k":"forge"},"ok":false,"has_grant":false,"err":e.chars().take(160).collect::<String>()})),
+        }
+      }
+      _ => validate_event(k, "fg", &fx, &p, &g, ca_file, Some(&qmini), json!({"k":"forge"}), ev),
+    }
+    der_len
+  };
+  match s(&sp.fmode["mode"]) {
+    "der_sweep" => {
+      // every octet of the SignedData blob of the (already edited) container, first concrete variant
+      let from = sp.fmode["from"].as_u64().unwrap_or(0) as usize;
+      let to = sp.fmode["to"].as_u64().unwrap_or(0) as usize;
+      let xors: Vec<u8> = arr(&sp.fmode["xors"]).iter().map(|x| x.as_u64().unwrap_or(1) as u8).collect();
+      let mut len = usize::MAX;
+      for pos in from..to {
+        if pos >= len {
+          break;
+        }
+        for x in &xors {
+          len = one(&mut |_, _| 0, &[(pos, *x)], ev);
+        }
+      }
+    }
+    "mime_sweep" => {
+      // every octet of the MIME text around the two bodies of the (already edited) container
+      let xors: Vec<u8> = arr(&sp.fmode["xors"]).iter().map(|x| x.as_u64().unwrap_or(1) as u8).collect();
+      for pos in 0..m.mime_len() {
+        for x in &xors {
+          one(&mut |_, _| 0, &[(MIME_BASE + pos, *x)], ev);
+        }
+      }
+    }
+    "rand" => {
+      let n = sp.fmode["n"].as_u64().unwrap_or(1) as usize;
+      let mut r = StdRng::seed_from_u64(sp.fmode["seed"].as_u64().unwrap_or(0));
+      for _ in 0..n {
+        // byte noise is never combined with the one-bit edits of the alphabet (it could undo them)
+        let bit_level = s(&b["md"]) == "junk" || s(&b["rest"]) != "orig" || s(&b["sig"]) == "junk";
+        let nn = if bit_level { 0 } else { [0usize, 0, 1, 1, 2, 3][r.gen_range(0..6)] };
+        let noise: Vec<(usize, u8)> = (0..nn)
+          .map(|_| (if r.gen_bool(0.8) { r.gen_range(0..960) } else { MIME_BASE + r.gen_range(0..m.mime_len()) }, 1u8 << r.gen_range(0..8)))
+          .collect();
+        let ev_e = r.gen_range(0..64usize);
+        let salt = r.gen_range(0..1000usize);
+        one(&mut |f, n| if f == "content_E" { ev_e } else { (salt + f.len() * 7) % n }, &noise, ev);
+      }
+    }
+    _ => {
+      for i in 0..m.n_variants(b) {
+        one(&mut |_, n| i % n, &[], ev);
+      }
+    }
+  }
+}
+
+/// which (permissions, governance, target, other) fixtures a TLC-generated container is built on
+fn forge_targets(meta: &Value, thorough: bool) -> Vec<(String, String, String, String)> {
+  let order: Vec<String> = arr(&meta["_order"]).iter().map(|x| s(x).to_string()).collect();
+  let perms: Vec<&String> = order.iter().filter(|n| meta[n.as_str()].get("grants").is_some()).collect();
+  let govs: Vec<&String> = order.iter().filter(|n| meta[n.as_str()].get("gov").is_some()).collect();
+  let mut v = vec![];
+  for (i, p) in perms.iter().enumerate() {
+    v.push((p.to_string(), govs[i % govs.len()].to_string(), "perm".to_string(), perms[(i + 1) % perms.len()].to_string()));
+    if !thorough {
+      break;
+    }
+  }
+  for (i, g) in govs.iter().enumerate() {
+    v.push((perms[i % perms.len()].to_string(), g.to_string(), "gov".to_string(), govs[(i + 1) % govs.len()].to_string()));
+    if !thorough {
+      break;
+    }
+  }
+  v
+}
+
+/// seeded container beyond the model's bound: up to 5 cooperating edits (the same edit alphabet as ForgeEdit)
+fn rnd_container(r: &mut StdRng) -> (Value, String) {
+  let by = ["CA", "CA", "foreign", "identity"][r.gen_range(0..4)];
+  let of = ["T", "T", "O"][r.gen_range(0..3)];
+  let mut un = serde_json::Map::new();
+  for f in UFIELDS {
+    un.insert(f.into(), json!("orig"));
+  }
+  let mut b = json!({"content":"T","by":by,"of":of,"md":of,"rest":"orig","sig":of});
+  for _ in 0..r.gen_range(0..=5) {
+    match r.gen_range(0..8) {
+      0 | 1 => b["content"] = json!(["O", "E", "E"][r.gen_range(0..3)]),
+      2 => {
+        let m = ["T", "O", "E", "E", "junk"][r.gen_range(0..5)];
+        b["md"] = json!(m);
+      }
+      3 => b["rest"] = json!("alt"),
+      4 => b["sig"] = json!(["T", "O", "junk"][r.gen_range(0..3)]),
+      _ => {
+        let f = UFIELDS[r.gen_range(0..UFIELDS.len())];
+        let a = ualts(f);
+        un.insert(f.into(), json!(a[r.gen_range(0..a.len())]));
+      }
+    }
+  }
+  b["un"] = Value::Object(un);
+  let ca = if by == "foreign" && r.gen_bool(0.7) { "foreign" } else { "CA" };
+  (b, ca.to_string())
+}
+
 pub fn run_one(k: usize, sp: &ARunSpec, ev: &mut Vec<Value>) -> Vec<Vec<u8>> {
   match sp.kind.as_str() {
     "sig" => run_sig(k, sp, ev),
+    "forge" => run_forge(k, sp, ev),
     _ => run_dec(k, sp, ev),
   }
   vec![]
@@ -489,7 +1309,7 @@ fn rnd_doc(r: &mut StdRng) -> Value {
 pub fn random_specs(seed: u64, runs: usize, events: usize, tier: &str, fixdir: &str) -> Vec<ARunSpec> {
   let mut r = StdRng::seed_from_u64(seed ^ 0xacce55);
   let mut v = vec![];
-  let blank = |kind: &str| ARunSpec { kind: kind.into(), doc: Value::Null, subj: String::new(), q: Value::Null, style: 0, fixdir: String::new(), perm: String::new(), gov: String::new(), target: String::new(), alts: Value::Null };
+  let blank = |kind: &str| blank_spec(kind);
   for _ in 0..runs {
     let doc = rnd_doc(&mut r);
     let mut list = vec![];
@@ -550,6 +1370,55 @@ pub fn random_specs(seed: u64, runs: usize, events: usize, tier: &str, fixdir: &
         from += chunk;
       }
     }
+    // ---- forged containers beyond the bound of the model (strengthening round)
+    let ftargets = forge_targets(&meta, thorough);
+    let un_orig: serde_json::Map<String, Value> = UFIELDS.iter().map(|f| (f.to_string(), json!("orig"))).collect();
+    let base = |by: &str, content: &str, md: &str| json!({"content":content,"by":by,"of":"T","md":md,"rest":"orig","sig":"T","un":un_orig});
+    // 1. an edited container x EVERY octet of its SignedData blob: (a) content nobody signed, (b) the same with
+    //    the messageDigest attribute rewritten to it, (c) untouched content under the signature of another key
+    let sweeps = [base("CA", "E", "T"), base("CA", "E", "E"), base("foreign", "T", "T")];
+    for (p, g, target, other) in &ftargets {
+      for b in &sweeps {
+        let chunk = 125;
+        let mut from = 0;
+        while from < 1000 {
+          let mut sp = blank("forge");
+          sp.fixdir = fixdir.into();
+          (sp.perm, sp.gov, sp.target, sp.other) = (p.clone(), g.clone(), target.clone(), other.clone());
+          sp.blob = b.clone();
+          sp.ca = "CA".into();
+          sp.fmode = if thorough {
+            json!({"mode":"der_sweep","from":from,"to":from+chunk,"xors":[1,2,4,8,16,32,64,128]})
+          } else {
+            json!({"mode":"der_sweep","from":from,"to":from+chunk,"xors":[1,32]})
+          };
+          v.push(sp);
+          from += chunk;
+        }
+        // ... and x every octet of the MIME text around the two bodies
+        let mut sp = blank("forge");
+        sp.fixdir = fixdir.into();
+        (sp.perm, sp.gov, sp.target, sp.other) = (p.clone(), g.clone(), target.clone(), other.clone());
+        sp.blob = b.clone();
+        sp.ca = "CA".into();
+        sp.fmode = if thorough { json!({"mode":"mime_sweep","xors":[1,2,4,8,16,32,64,128]}) } else { json!({"mode":"mime_sweep","xors":[1,32]}) };
+        v.push(sp);
+      }
+    }
+    // 2. seeded containers with up to 5 cooperating edits, random concrete values, random content edits, byte noise
+    let all_targets = forge_targets(&meta, true);
+    let n_rand = if thorough { runs / 3 } else { runs };
+    for _ in 0..n_rand {
+      let (b, ca) = rnd_container(&mut r);
+      let (p, g, target, other) = all_targets[r.gen_range(0..all_targets.len())].clone();
+      let mut sp = blank("forge");
+      sp.fixdir = fixdir.into();
+      (sp.perm, sp.gov, sp.target, sp.other) = (p, g, target, other);
+      sp.blob = b;
+      sp.ca = ca;
+      sp.fmode = json!({"mode":"rand","n":8,"seed":r.gen_range(0..u32::MAX)});
+      v.push(sp);
+    }
   }
   v
 }
@@ -561,10 +1430,26 @@ pub fn main(mode: &str, opt: &HashMap<String, String>) -> i32 {
       let mut specs: Vec<ARunSpec> = util::read_jsonl(&opt["in"]);
       if let Some(fd) = opt.get("fixtures") {
         for sp in specs.iter_mut() {
-          if sp.kind == "sig" {
+          if sp.kind == "sig" || sp.kind == "forge" {
             sp.fixdir = fd.clone();
           }
         }
+        // a container enumerated by TLC names no fixture: build it on every target of the tier
+        let meta: Value = serde_json::from_slice(&std::fs::read(format!("{fd}/fixtures.json")).expect("fixtures.json")).expect("fixtures.json");
+        let targets = forge_targets(&meta, opt.get("tier").map(|s| s.as_str()) == Some("thorough"));
+        let mut expanded = vec![];
+        for sp in specs {
+          if sp.kind == "forge" && sp.perm.is_empty() {
+            for (p, g, target, other) in &targets {
+              let mut c = sp.clone();
+              (c.perm, c.gov, c.target, c.other) = (p.clone(), g.clone(), target.clone(), other.clone());
+              expanded.push(c);
+            }
+          } else {
+            expanded.push(sp);
+          }
+        }
+        specs = expanded;
       }
       util::run_parallel(opt, specs, run_one)
     }
